@@ -74,6 +74,9 @@ func (p *VerifPlan) Obs() VerifObs {
 // VerifAttach attaches a plan to a connection (before its handshake starts).
 func VerifAttach(c *Conn, p *VerifPlan) { c.verif.plan = p }
 
+// VerifAttachQUIC attaches a plan to the connection inside a QUIC server.
+func VerifAttachQUIC(q *QUICConn, p *VerifPlan) { q.conn.verif.plan = p }
+
 func (c *Conn) verifRewriteOut(msg handshakeMessage, data []byte) []byte {
 	p := c.verif.plan
 	if p == nil || p.RewriteOut == nil {
